@@ -110,11 +110,16 @@ func handleJSON(req *Req) *Resp {
 			runs = append(runs, r)
 			continue
 		}
-		if len(ms) == 0 && cd == nil {
-			cd = []any{}
+		// the document of a result list is an array, also when the list is empty (`null` is not a list)
+		if _, isList := cd.([]any); !isList {
+			r["invalid"] = "Json() of a result list is not an array: " + cj
+			runs = append(runs, r)
+			continue
 		}
-		if len(ms) == 0 && fd == nil {
-			fd = []any{}
+		if _, isList := fd.([]any); !isList {
+			r["invalid"] = "FormattedJson() of a result list is not an array: " + fj
+			runs = append(runs, r)
+			continue
 		}
 		r["equal"] = canon(cd) == canon(fd)
 		want := docOfMatches(ms)
